@@ -34,7 +34,7 @@ def evaluate(prop, part, tier, cases, tag="cases"):
             h = dict(part.to_harness(c))
             h["id"] = c["id"]
             hcases.append(h)
-        obs = core.run_harness(part.ENGINE, hcases, timeout=getattr(part, "HARNESS_TIMEOUT", 900),
+        obs = core.run_harness(part.ENGINE, hcases, timeout=getattr(part, "HARNESS_TIMEOUT", 400),
                                shards=getattr(part, "HARNESS_SHARDS", None),
                                extra_env=getattr(part, "HARNESS_ENV", None))
     terms = [part.to_gallina(c, obs[c["id"]]) for c in cases]
